@@ -1,7 +1,7 @@
 """C02 — every emitted proto is well-formed; bad programs are refused."""
 import re
 
-MODULES = ["contracts.c02_wellformed", "contracts.c01_converter", "contracts.c02_modelproto"]
+MODULES = ["contracts.c02_wellformed", "contracts.c01_converter", "contracts.c02_modelproto", "contracts.c11_slicing:subscript_scopes"]
 
 
 def INCLUDE(name):
@@ -293,7 +293,54 @@ sys.exit(0)
 '''
 
 
+SUBSCRIPT_SCOPES = '''
+# the same slice used inside an if-branch / a loop body and again outside (or in the sibling branch): checker + onnxruntime vs eager
+import sys
+import numpy as np
+import onnx, onnxruntime as ort
+from onnxscript import script, FLOAT, BOOL, INT64
+from onnxscript import opset18 as op
+@script(default_opset=op)
+def branch_then_outside(x: FLOAT[4], c: BOOL) -> FLOAT[2]:
+    if c:
+        y = x[1:3]
+    else:
+        y = x[0:2] * 2.0
+    z = x[1:3]
+    return y + z
+@script(default_opset=op)
+def both_branches(x: FLOAT[4], c: BOOL) -> FLOAT[2]:
+    if c:
+        y = x[1:3]
+    else:
+        y = x[1:3] * 2.0
+    return y
+@script(default_opset=op)
+def loop_then_outside(x: FLOAT[4], n: INT64) -> FLOAT[2]:
+    acc = x[0:2]
+    for i in range(n):
+        acc = acc + x[1:3]
+    return acc + x[1:3]
+bad = 0
+x = np.array([1, 2, 3, 4], np.float32)
+for fn, extra, name in ((branch_then_outside, np.array(True), "c"), (branch_then_outside, np.array(False), "c"), (both_branches, np.array(False), "c"),
+                        (loop_then_outside, np.array(2, np.int64), "n")):
+    m = fn.to_model_proto()
+    eager = np.asarray(fn(x, extra))
+    try:
+        onnx.checker.check_model(m, full_check=True)
+        graph = ort.InferenceSession(m.SerializeToString()).run(None, {"x": x, name: extra})[0]
+    except Exception as e:
+        print(f"{fn.name}({name}={extra}): the emitted model is rejected: {str(e).splitlines()[0][:200]}"); bad += 1; continue
+    if not np.array_equal(graph, eager):
+        print(f"{fn.name}({name}={extra}): graph {graph.tolist()}, eager {eager.tolist()}"); bad += 1
+sys.exit(1 if bad else 0)
+'''
+
+
 def replay(ob):
+    if "subscript.operands_are_defined_in_the_graph" in ob["name"]:
+        return SUBSCRIPT_SCOPES
     if "outputs_are_pairwise_distinct_values" in ob["name"]:
         from props import C01
         return C01.DUP_OUTPUTS
